@@ -22,6 +22,8 @@ CONSTANTS
     D, MaxR, Start0, Fetch, AllowKnown, Emit,
     AllowBadReg,  \* generate registrations that must be skipped?
     MinForkNum,   \* forks start and the head switches only at blocks with at least this number (0: anywhere)
+    AllowOther,   \* generate non-matching logs "o"?
+    MidSwitch,    \* may the canonical leaf switch in the middle of a Sync call of keyper A?
     Faults    \* may a Sync call of keyper A fail (RPC error, failed transaction)?  Code-shaped: the
               \* error is returned, the transactions committed so far stay, the rest is not done,
               \* the next call resumes after the recorded position
@@ -31,8 +33,11 @@ UseTrigs == {TrigSeq[i] : i \in 1..NTrig}
 cfgA == [d |-> D, maxr |-> MaxR, start0 |-> Start0, fetch |-> Fetch]
 cfgB == [d |-> D, maxr |-> 1, start0 |-> Start0, fetch |-> Fetch]
 
-VARIABLES blk, canon, a, b, cutsA, cutsB, okA, okB, seen, tag, last, hist
-vars == <<blk, canon, a, b, cutsA, cutsB, okA, okB, seen, tag, last, hist>>
+VARIABLES blk, canon, a, b, cutsA, cutsB, okA, okB, seen, tag, last, hist, dead
+vars == <<blk, canon, a, b, cutsA, cutsB, okA, okB, seen, tag, last, hist, dead>>
+(* dead: blocks abandoned by a switch in the middle of a Sync call; the environment never makes them
+   canonical again (if it did, the position hash taken before the switch would name a block whose
+   events were never fetched - the header-first order cannot protect against that flip-flop) *)
 
 NoSt == TSt(NoRow, {}, {})
 H(op, x, evs, exp) == [op |-> op, a |-> x, evs |-> evs, exp |-> exp, t |-> <<>>, cut |-> -1,
@@ -46,7 +51,7 @@ BranchToks(t, p) == UNION {t[x].evs : x \in AncSelf(t, p)}
    above MaxInt64): no effect in the code-shaped spec, so it has to be visible in the VIEW through
    blk and through the tag of the call that meets it *)
 BadReg == "b"
-Tokens == {RegTok(t) : t \in UseTrigs} \cup {LogTok(t) : t \in UseTrigs} \cup {"o"} \cup (IF AllowBadReg THEN {BadReg} ELSE {})
+Tokens == {RegTok(t) : t \in UseTrigs} \cup {LogTok(t) : t \in UseTrigs} \cup (IF AllowOther THEN {"o"} ELSE {}) \cup (IF AllowBadReg THEN {BadReg} ELSE {})
 
 (* monitors of one call: states = <<pre, committed...>>; returns [fail, known, cuts] *)
 CallCheck(states, cuts) ==
@@ -66,7 +71,7 @@ Init ==
     /\ blk = << [num |-> 0, par |-> -1, evs |-> {}, exp |-> 0] >>
     /\ canon = 1
     /\ a = NoSt /\ b = NoSt /\ cutsA = {} /\ cutsB = {}
-    /\ okA = TRUE /\ okB = TRUE /\ seen = FALSE /\ tag = <<>>
+    /\ okA = TRUE /\ okB = TRUE /\ seen = FALSE /\ tag = <<>> /\ dead = {}
     /\ last = H("init", 0, <<>>, 0)
     /\ hist = <<>>
 
@@ -106,18 +111,40 @@ Mine(p, evs, exp) ==
     /\ last' = H("mine", p, SetToSeq(evs), exp)
     /\ hist' = Append(hist, last')
     /\ tag' = <<>>
-    /\ UNCHANGED <<a, cutsA, okA, seen>>
+    /\ UNCHANGED <<a, cutsA, okA, seen, dead>>
 
 Switch(x) ==
     /\ x \in DOMAIN blk /\ x # canon
     /\ blk[x].num >= MinForkNum
+    /\ AncSelf(blk, x) \cap dead = {}
     /\ canon' = x /\ blk' = blk
     /\ DepthOK(b, x) = TRUE
     /\ RefSync
     /\ last' = H("switch", x, <<>>, 0)
     /\ hist' = Append(hist, last')
     /\ tag' = <<>>
-    /\ UNCHANGED <<a, cutsA, okA, seen>>
+    /\ UNCHANGED <<a, cutsA, okA, seen, dead>>
+
+(* The node switches to leaf x right after the k-th RPC call of A's (single-range, rollback-free,
+   gap-free) Sync; ONE step.  The monitors judge the tables from the next quiescent call on. *)
+SyncMid(k, x, ord) ==
+    /\ MidSwitch
+    /\ blk' = blk /\ canon' = x
+    /\ x \in Leaves(blk) /\ x # canon /\ blk[x].num >= blk[canon].num
+    /\ ~(a.synced.has /\ blk[canon].num > a.synced.num + 1)
+    /\ DepthOK(a, canon) = TRUE
+    /\ LET full == TRun(cfgA, blk, canon, a)
+           lo   == IF a.synced.has THEN a.synced.num + 1 ELSE Start0
+       IN /\ Len(full) = 1 /\ full[1].synced.hash # Empty
+          /\ a' = TStoreMid(cfgA, blk, canon, x, a, lo, blk[canon].num, k, ord)
+          /\ cutsA' = CutsAfter(cutsA, a')
+    /\ DepthOK(b, x) = TRUE
+    /\ RefSync
+    /\ tag' = <<"mid", k, ord>>
+    /\ last' = [H("syncmid", x, <<>>, 0) EXCEPT !.cut = k]
+    /\ hist' = Append(hist, last')
+    /\ dead' = dead \cup (AncSelf(blk, canon) \ AncSelf(blk, x))
+    /\ UNCHANGED <<okA, seen>>
 
 (* cut = how many of the call's transactions are committed before it fails (Len(full) = no failure) *)
 SyncA(cut) ==
@@ -148,7 +175,7 @@ SyncA(cut) ==
           /\ last' = [H("sync", 0, <<>>, 0) EXCEPT !.t = tag', !.cut = IF cut = Len(full) THEN -1 ELSE cut,
                          !.post = [synced |-> a'.synced, regs |-> SetToSeq(a'.regs), fired |-> SetToSeq(a'.fired)]]
     /\ hist' = Append(hist, last')
-    /\ UNCHANGED <<b, cutsB, okB>>
+    /\ UNCHANGED <<b, cutsB, okB, dead>>
 
 ExpChoices(p) == {0} \cup {blk[p].num + 1 + o : o \in ExpOffsets}
 
@@ -157,6 +184,7 @@ Next ==
           \E exp \in ExpChoices(p) : Mine(p, evs, exp)
     \/ \E x \in DOMAIN blk : Switch(x)
     \/ \E cut \in 0..(MaxNum + 1) : SyncA(cut)
+    \/ \E k \in 1..3, x \in DOMAIN blk, ord \in {"rt", "tr"} : SyncMid(k, x, ord)
 
 Spec == Init /\ [][Next]_vars
 
@@ -167,6 +195,6 @@ C16_Inv ==
 C16_InvCex == C16_Inv \/ (PrintT(<<"CEX", ToJson(hist)>>) /\ FALSE)
 
 EmitInv == (~Emit) \/ last.op # "sync" \/ PrintT(<<"B", ToJson(hist)>>)
-View == <<blk, canon, a, b, cutsA, cutsB, okA, okB, seen, tag>>
+View == <<blk, canon, a, b, cutsA, cutsB, okA, okB, seen, tag, dead>>
 
 =============================================================================
